@@ -3,6 +3,7 @@ package checks
 import (
 	"encoding/json"
 	"fmt"
+	"time"
 
 	"verif/mc"
 )
@@ -146,19 +147,37 @@ func c04Run(c *mc.Ctx) {
 	th := c.Thorough()
 	sizes, depth := sizesQ, 4
 	dlens := []int{5, 150, 4097, 8200}
-	if th {
-		sizes, depth = sizesT, 5
-		dlens = []int{0, 1, 5, 100, 101, 150, 4096, 4097, 8200, 20000}
-	}
 	c.Sample("history", map[string]interface{}{"reader": "default", "stream": 8200, "env": "chunk=1 errWithLast=true", "ops": []string{"peek(4097)", "next(100)", "readbinary(8193)", "Release()"}})
 	// 1. explicit-state search, io.Reader-backed
-	for _, dl := range dlens {
-		for _, env := range envConfigs(th) {
-			if !c.Mine() {
-				continue
+	if !th {
+		for _, dl := range dlens {
+			for _, env := range envConfigs(false) {
+				if !c.Mine() {
+					continue
+				}
+				readerBFS(c, "C04", ReaderCfg{Kind: "default", DLen: dl, Env: env, Sizes: sizes}, depth, 0)
 			}
-			readerBFS(c, "C04", ReaderCfg{Kind: "default", DLen: dl, Env: env, Sizes: sizes}, depth, 0)
 		}
+	} else {
+		// thorough (A): one level deeper with the quick alphabet on the quick configurations
+		for _, dl := range dlens {
+			for _, env := range envConfigs(false) {
+				if !c.Mine() {
+					continue
+				}
+				readerBFS(c, "C04", ReaderCfg{Kind: "default", DLen: dl, Env: env, Sizes: sizesQ}, 5, 0)
+			}
+		}
+		// thorough (B): the larger size alphabet on the full product of source behaviours and stream lengths
+		for _, dl := range []int{0, 1, 5, 100, 101, 150, 4096, 4097, 8200, 20000} {
+			for _, env := range envConfigs(true) {
+				if !c.Mine() {
+					continue
+				}
+				readerBFS(c, "C04", ReaderCfg{Kind: "default", DLen: dl, Env: env, Sizes: sizesT}, 4, 0)
+			}
+		}
+		sizes, depth = sizesT, 4
 	}
 	// 1b. histories that start after 9..11 (Next(1), Release) cycles on a 1-byte-per-Read source: the size-statistics ring wraps
 	for _, warm := range []int{9, 10, 11, 21} {
@@ -192,7 +211,7 @@ func c04Run(c *mc.Ctx) {
 
 func init() {
 	Register(&Check{
-		ID: "C04", Level: "model_checking",
+		ID: "C04", Level: "model_checking", Thorough: 45 * time.Minute,
 		Rule: "explicit-state BFS over all histories of Next/Peek/Skip/ReadBinary(n)/Release with n from the boundary alphabet, on the real reader, for every (stream length x chunk policy x end style x zero-read policy x terminal error) and every bytes-reader shape; states keyed by private fields (len,cap,ri,parked buffers,error,stats ring) + source state + cursor; every transition compared with a plain cursor; plus all per-Read deviations (<= bound) on all short histories",
 		Assumptions: []string{
 			"a source that fails keeps failing (no data after its error); 100 consecutive empty reads are outside the environment (finite zero-read policies)",
